@@ -198,3 +198,22 @@ contract("usim._primitives.timing.Moment.__unsubscribe__", allocates=False,
                   "forall(self._transition._waiting, lambda w: w[1] is not interrupt)"],
          modifies=["Notification._waiting@self._transition", "Interrupt.sub@interrupt", "Interrupt._revoked@interrupt", "Interrupt.pos"],
          props=["C01", "C03", "C07"])
+
+# ~(time >= d) is (time < d) and vice versa; ~eternity is instant and vice versa (C08)
+INVT = dict(chain_ensures=True, check_frame=False, props=["C08"])
+contract("usim._primitives.timing.After.__invert__",
+         params={"self": REF("After")}, returns=REF("Before"),
+         ensures=["exact_class(result, Before)", "result.date == self.date", "bool(result) == (not bool(self))"],
+         modifies=["Before.date", "Notification._waiting"], **INVT)
+contract("usim._primitives.timing.Before.__invert__",
+         params={"self": REF("Before")}, returns=REF("After"),
+         ensures=["exact_class(result, After)", "result.date == self.date", "bool(result) == (not bool(self))"],
+         modifies=["After.date", "After._scheduled", "After.trigger_due", "Notification._waiting"], **INVT)
+contract("usim._primitives.timing.Eternity.__invert__",
+         params={"self": REF("Eternity")}, returns=REF("Instant"),
+         ensures=["exact_class(result, Instant)", "bool(result) == (not bool(self))"],
+         modifies=["Notification._waiting"], **INVT)
+contract("usim._primitives.timing.Instant.__invert__",
+         params={"self": REF("Instant")}, returns=REF("Eternity"),
+         ensures=["exact_class(result, Eternity)", "bool(result) == (not bool(self))"],
+         modifies=["Notification._waiting"], **INVT)
